@@ -162,6 +162,18 @@ func (c *checker) prefetch(texts []string) {
 
 var reNum = regexp.MustCompile(`[0-9]+`)
 
+// errClass abstracts a parser error for a signature: first clause only, numbers and quoted text removed.
+func errClass(err error) string {
+	m := err.Error()
+	for _, sep := range []string{";", "`", "\n"} {
+		if i := strings.Index(m, sep); i >= 0 {
+			m = m[:i]
+		}
+	}
+	m = regexp.MustCompile(`"[^"]*"`).ReplaceAllString(m, "<id>")
+	return strings.TrimSpace(reNum.ReplaceAllString(m, "N"))
+}
+
 func diagClass(d string) string {
 	if i := strings.Index(d, "error:"); i >= 0 {
 		d = d[i+6:]
@@ -311,13 +323,13 @@ func (c *checker) funcBatch(vs []vector, base int) {
 				}
 				if _, e1 := asm.ParseString("one.ll", prelude+pl.render(mode)); e1 != nil {
 					found = true
-					rep.Fail(mbt.Failure{Signature: "C08|parse|rejected|" + modeNames[mode] + " numbering: " + irhist.PanicClass(e1.Error()),
+					rep.Fail(mbt.Failure{Signature: "C08|parse|rejected|" + modeNames[mode] + " numbering: " + errClass(e1),
 						What: fmt.Sprintf("asm.ParseString rejects the %s rendering (accepted by llvm-as) of %s: %v", modeNames[mode], pl.describe, mbt.Truncate(e1.Error(), 200)),
 						Case: caseOfText(vs[i:i+1], "parse", prelude+pl.render(mode))})
 				}
 			}
 			if !found {
-				rep.Fail(mbt.Failure{Signature: "C08|parse|rejected|batch: " + irhist.PanicClass(err.Error()),
+				rep.Fail(mbt.Failure{Signature: "C08|parse|rejected|batch: " + errClass(err),
 					What: "asm.ParseString rejects a batch llvm-as accepts: " + mbt.Truncate(err.Error(), 200), Case: caseOfText(vs, "parse", texts[mode])})
 			}
 			continue
@@ -728,7 +740,7 @@ func (c *checker) modVectors(vs []vector) {
 		// (b) parse the text LLVM accepts
 		pm, err := asm.ParseString("mod.ll", src)
 		if err != nil {
-			c.failMod(v, mbt.Failure{Signature: "C08|parse|rejected|module: " + irhist.PanicClass(err.Error()),
+			c.failMod(v, mbt.Failure{Signature: "C08|parse|rejected|module: " + errClass(err),
 				What: fmt.Sprintf("asm.ParseString rejects %s (accepted by llvm-as): %v", v.key(), mbt.Truncate(err.Error(), 200)),
 				Case: caseOfText([]vector{v}, "parse", src)})
 			continue
@@ -1006,7 +1018,7 @@ func (c *checker) judgeRecords() {
 // histories that start from a parsed module (IRState)
 // ===================================================================================
 
-func (c *checker) histories(label string, consts map[string]string, withObservers bool) {
+func (c *checker) histories(label string, consts map[string]string) {
 	rep := c.rep
 	consts["ValidateOnPrint"] = "FALSE"
 	t := mbt.MustTLC(mbt.TLCOpts{Spec: "IRState", Cfg: "IRStateEmit.cfg", Consts: consts, Workers: 1, Timeout: 25 * time.Minute})
@@ -1021,16 +1033,6 @@ func (c *checker) histories(label string, consts map[string]string, withObserver
 	}
 	n := 0
 	for _, tr := range trs {
-		// histories without observer calls: what is compared is build/parse/edit + one final print
-		hasObs := false
-		for _, cl := range tr.Hist {
-			if irhist.IsObserver(cl.Op) {
-				hasObs = true
-			}
-		}
-		if hasObs != withObservers && !withObservers {
-			continue
-		}
 		n++
 		c.judgeHistory(tr, label)
 	}
@@ -1176,9 +1178,9 @@ func Run(tier, replay string) {
 	if tier == "thorough" {
 		parse["MaxCalls"] = "4"
 	}
-	c.histories("parse_edit_print", parse, false)
+	c.histories("parse_edit_print", parse)
 	if tier == "thorough" {
-		c.histories("build_edit_print", map[string]string{"MaxSrc": "0", "MaxCalls": "6", "Observers": "{}"}, false)
+		c.histories("build_edit_print", map[string]string{"MaxSrc": "0", "MaxCalls": "5", "Observers": "{}"})
 	}
 
 	// (T)
